@@ -75,6 +75,9 @@ def space_cases(ctx, n_sample):
             cases.append((ts, cs))
         while len(cases) < n_sample:
             cases.append((rng.choice(subsets), rng.choice(colsets)))
+    # the smallest spaces: nothing declared at all (observations of Hidden cells only), only the implicit types declared
+    cases[3:3] = [([], rng.choice(colsets)), ([NoneGridObject], rng.choice(colsets)), ([Hidden], colsets[0]),
+                  ([NoneGridObject, Hidden], rng.choice(colsets))]
     out = []
     for i, (ts, cs) in enumerate(cases):
         h, w = rng.randint(2, 6), rng.randint(2, 6)
@@ -82,6 +85,16 @@ def space_cases(ctx, n_sample):
         if i % 5 == 0:
             h, w = 2, 2
         ts, cs = list(ts), list(cs)
+        # declared lists as users write them: a type named twice, the implicit types (NoneGridObject, Hidden) named
+        # explicitly, a colour named twice
+        if i % 7 == 3 and ts:
+            ts = ts + [rng.choice(ts)]
+        if i % 7 == 5:
+            ts = ts + [NoneGridObject]
+        if i % 11 == 7:
+            ts = ts + [Hidden]
+        if i % 13 == 6:
+            cs = cs + [rng.choice(cs)]
         if i % 2:  # declared in arbitrary order (NONE not first, types not in registry order)
             rng.shuffle(ts)
             rng.shuffle(cs)
@@ -105,6 +118,17 @@ def member_objects(types, colors, extra=()):
             out.append(Box(Floor()))
         else:
             out.append(t())
+    return out
+
+
+def dedup(objs):
+    """one object per deep encoding (declared lists may name a type twice)"""
+    seen, out = set(), []
+    for o in objs:
+        e = enc.eo(o)
+        if e not in seen:
+            seen.add(e)
+            out.append(o)
     return out
 
 
